@@ -429,6 +429,9 @@ func gen(t *rapid.T) Case {
 	if g.chance(2, "sharedparam") {
 		p := g.paramSchemaFields(true)
 		p["name"], p["in"] = "limit", "query"
+		if g.chance(3, "sallowempty") {
+			p["allowEmptyValue"] = true
+		}
 		// the key spaces of parameters, responses and definitions are separate in v2: the same key may
 		// name one of each
 		if len(g.defs) > 0 && g.chance(3, "keycollision") {
@@ -541,6 +544,10 @@ func gen(t *rapid.T) Case {
 				p["name"], p["in"] = fmt.Sprintf("q%d", i), rapid.SampledFrom([]string{"query", "header"}).Draw(t, "pin")
 				if g.chance(2, "preq") {
 					p["required"] = true
+				}
+				if p["in"] == "query" && g.chance(3, "pallowempty") {
+					p["allowEmptyValue"] = true
+					g.feats["allowEmptyValue"] = true
 				}
 				params = append(params, p)
 			}
